@@ -3,10 +3,17 @@ package main
 // C19: the DTLCP handshake survives datagram loss, duplication and reordering.
 // Every fault script (up to k faults: drop / duplicate / delay of the n-th datagram of either
 // direction, both orders of simultaneous expiry) is replayed on the real endpoints under the
-// deterministic virtual-time network.
+// deterministic virtual-time network; the complete event trace (every datagram sent, with the
+// epoch / sequence number / kind of each record in it, every network action, every expiry of a
+// read deadline, handshake completion and application data) is handed to the Coq simulator,
+// which must produce the same trace for the same script.
+//
+// Application program (both directions): after its handshake the client writes "ping" and reads
+// with a 400 ms deadline, writing "ping" again on every timeout (8 tries) until "pong" arrives;
+// the server reads with a 400 ms deadline, answers every "ping" by "pong", and leaves after 5
+// consecutive timeouts.
 
 import (
-	"bytes"
 	"encoding/json"
 	"fmt"
 	"os"
@@ -19,8 +26,8 @@ import (
 )
 
 type c19Fault struct {
-	Dir  int    `json:"dir"` // 0: sent by the client, 1: sent by the server
-	Idx  int    `json:"idx"` // n-th datagram of that direction
+	Dir  int    `json:"dir"`  // 0: sent by the client, 1: sent by the server
+	Idx  int    `json:"idx"`  // n-th datagram of that direction
 	Kind string `json:"kind"` // drop | dup | delay
 	Ms   int    `json:"ms,omitempty"`
 }
@@ -34,33 +41,92 @@ type c19Input struct {
 }
 
 type c19Result struct {
-	COk, SOk       bool
-	CErr, SErr     string
-	Agree          bool
-	DataOK         bool
-	EarlyData      bool
-	VirtualMs      int64
-	Expiries       int
-	NDgram         [2]int
-	Trace          []string
-	Hung           bool
-	Panic          string
+	COk, SOk   bool
+	CErr, SErr string
+	Agree      bool
+	Pong, Ping bool // the client got "pong"; the server got "ping"
+	VirtualMs  int64
+	DoneMs     [2]int64
+	Expiries   int
+	Trace      []string
+	Hung       bool
+	Panic      string
 }
 
-func c19Run(in c19Input) c19Result {
+const (
+	c19Init   = 100
+	c19Max    = 1600
+	c19AppMs  = 400
+	c19Tries  = 8
+	c19Idle   = 5
+	c19CapSec = 60
+)
+
+// c19Records renders a datagram as the Coq list of its records.
+func c19Records(d []byte) string {
+	var rs []string
+	for len(d) >= 13 {
+		typ, epoch := d[0], int(d[3])<<8|int(d[4])
+		seq := 0
+		for _, b := range d[5:11] {
+			seq = seq<<8 | int(b)
+		}
+		n := int(d[11])<<8 | int(d[12])
+		if 13+n > len(d) {
+			rs = append(rs, "Rbad")
+			break
+		}
+		body := d[13 : 13+n]
+		d = d[13+n:]
+		kind := "BOther"
+		switch {
+		case typ == 20:
+			kind = "BCcs"
+		case typ == 23:
+			kind = "BApp"
+		case typ == 21:
+			kind = "BAlert"
+		case typ == 22 && epoch > 0:
+			kind = "BEnc"
+		case typ == 22 && len(body) >= 12:
+			mt, ml := body[0], int(body[1])<<16|int(body[2])<<8|int(body[3])
+			ms := int(body[4])<<8 | int(body[5])
+			fo, fl := int(body[6])<<16|int(body[7])<<8|int(body[8]), int(body[9])<<16|int(body[10])<<8|int(body[11])
+			name := map[byte]string{1: "CH0", 2: "SH", 3: "HVR", 11: "CERT", 12: "SKX", 13: "CR", 14: "SHD", 15: "CV", 16: "CKX", 20: "FIN"}[mt]
+			if name == "" || fo != 0 || fl != ml || len(body) != 12+ml {
+				kind = "BFrag"
+				break
+			}
+			if mt == 1 { // ClientHello: vers(2) random(32) sid cookie
+				b := body[12:]
+				if len(b) > 35 && len(b) > 35+int(b[34]) && b[35+int(b[34])] > 0 {
+					name = "CH1"
+				}
+			}
+			kind = fmt.Sprintf("(BHs %s %d)", name, ms)
+		}
+		rs = append(rs, fmt.Sprintf("mkRec %d %d %s", epoch, seq, kind))
+	}
+	if len(d) != 0 {
+		rs = append(rs, "Rbad")
+	}
+	return "[" + strings.Join(rs, "; ") + "]"
+}
+
+func c19Run(in c19Input) (res c19Result, coqTrace []string) {
 	reg := tk.NewRegistry()
-	cc := tk.EPConfig{Suites: []uint16{in.Suite}, Ident: "cli", ServerName: "server.test", PMTU: 4000, Cache: "c", RetransMs: 100, MaxRetransMs: 1600}
-	sc := tk.EPConfig{Ident: "srv", Auth: in.Auth, PMTU: 4000, Cache: "s", RetransMs: 100, MaxRetransMs: 1600}
+	cc := tk.EPConfig{Suites: []uint16{in.Suite}, Ident: "cli", ServerName: "server.test", PMTU: 4000, Cache: "c", RetransMs: c19Init, MaxRetransMs: c19Max}
+	sc := tk.EPConfig{Ident: "srv", Auth: in.Auth, PMTU: 4000, Cache: "s", RetransMs: c19Init, MaxRetransMs: c19Max}
 	if in.Resume { // an undisturbed first connection creates the session
 		dp := tk.NewDPair(tk.BuildDTLCP(cc, reg), tk.BuildDTLCP(sc, reg))
 		cr, sr, _ := dp.Handshake(10 * time.Second)
 		if cr.Err != "" || sr.Err != "" {
-			return c19Result{CErr: "setup:" + cr.Err, SErr: "setup:" + sr.Err}
+			return c19Result{CErr: "setup:" + cr.Err, SErr: "setup:" + sr.Err}, nil
 		}
 	}
 	dp := tk.NewDPair(tk.BuildDTLCP(cc, reg), tk.BuildDTLCP(sc, reg))
 	dp.Net.TieFlip = in.TieFlip
-	dp.Net.MaxVirtual = 60 * time.Second
+	dp.Net.MaxVirtual = c19CapSec * time.Second
 	dp.Net.Decide = func(d *tk.Dgram) tk.Action {
 		for _, f := range in.Faults {
 			if f.Dir == d.From && f.Idx == d.Idx {
@@ -69,55 +135,83 @@ func c19Run(in c19Input) c19Result {
 		}
 		return tk.Action{}
 	}
-	var res c19Result
 	var cr, sr tk.EPResult
-	var gotC, gotS []byte
-	msgC, msgS := []byte("application data from the client"), []byte("application data from the server")
-	prog := func(id int) func(c *dtlcp.Conn) {
-		return func(c *dtlcp.Conn) {
-			var err error
-			func() {
-				defer func() {
-					if r := recover(); r != nil {
-						res.Panic = fmt.Sprint(r)
-						err = fmt.Errorf("panic")
-					}
-				}()
-				err = c.Handshake()
+	hs := func(id int, c *dtlcp.Conn) bool {
+		var err error
+		func() {
+			defer func() {
+				if r := recover(); r != nil {
+					res.Panic = fmt.Sprint(r)
+					err = fmt.Errorf("panic")
+				}
 			}()
-			if id == 0 {
-				cr = tk.StateDTLCP(c, err)
-			} else {
-				sr = tk.StateDTLCP(c, err)
-			}
-			if err != nil {
-				dp.Net.End(id).Close()
+			err = c.Handshake()
+		}()
+		st := tk.StateDTLCP(c, err)
+		if id == 0 {
+			cr = st
+		} else {
+			sr = st
+		}
+		if err != nil {
+			dp.Net.Note(id, "done-err")
+			dp.Net.End(id).Close()
+			return false
+		}
+		res.DoneMs[id] = dp.Net.Now().Milliseconds()
+		dp.Net.Note(id, "done-ok")
+		return true
+	}
+	cprog := func(c *dtlcp.Conn) {
+		if !hs(0, c) {
+			return
+		}
+		buf := make([]byte, 256)
+		c.Write([]byte("ping"))
+		for tries := 0; tries < c19Tries; tries++ {
+			c.SetReadDeadline(time.Now().Add(c19AppMs * time.Millisecond))
+			n, err := c.Read(buf)
+			if n > 0 && string(buf[:n]) == "pong" {
+				res.Pong = true
+				dp.Net.Note(0, "got")
 				return
 			}
-			mine, theirs := msgC, &gotC
-			if id == 1 {
-				mine, theirs = msgS, &gotS
+			if err != nil && tk.ErrClass(err) != "timeout" {
+				res.CErr = "read:" + tk.ErrClass(err)
+				dp.Net.Note(0, "app-err")
+				return
 			}
-			c.Write(mine)
-			buf := make([]byte, 4096)
-			for tries := 0; tries < 6 && len(*theirs) == 0; tries++ {
-				c.SetReadDeadline(time.Now().Add(400 * time.Millisecond))
-				n, rerr := c.Read(buf)
-				if n > 0 {
-					*theirs = append(*theirs, buf[:n]...)
-				}
-				if rerr != nil && tk.ErrClass(rerr) != "timeout" {
-					if id == 0 {
-						res.CErr = "read:" + tk.ErrClass(rerr)
-					} else {
-						res.SErr = "read:" + tk.ErrClass(rerr)
-					}
-					break
-				}
+			if err != nil {
+				c.Write([]byte("ping"))
 			}
 		}
 	}
-	res.Hung = dp.Run(prog(0), prog(1), 20*time.Second)
+	sprog := func(c *dtlcp.Conn) {
+		if !hs(1, c) {
+			return
+		}
+		buf := make([]byte, 256)
+		for idle := 0; idle < c19Idle; {
+			c.SetReadDeadline(time.Now().Add(c19AppMs * time.Millisecond))
+			n, err := c.Read(buf)
+			if n > 0 && string(buf[:n]) == "ping" {
+				res.Ping = true
+				dp.Net.Note(1, "got")
+				c.Write([]byte("pong"))
+				idle = 0
+				continue
+			}
+			if err != nil && tk.ErrClass(err) != "timeout" {
+				res.SErr = "read:" + tk.ErrClass(err)
+				dp.Net.Note(1, "app-err")
+				return
+			}
+			if err != nil {
+				idle++
+			}
+		}
+	}
+	res.Hung = dp.Run(cprog, sprog, 20*time.Second)
 	res.COk, res.SOk = cr.Err == "" && cr.Complete, sr.Err == "" && sr.Complete
 	if res.CErr == "" {
 		res.CErr = cr.Err
@@ -126,18 +220,37 @@ func c19Run(in c19Input) c19Result {
 		res.SErr = sr.Err
 	}
 	res.Agree = cr.Suite == sr.Suite && cr.Version == sr.Version && cr.Resumed == sr.Resumed && cr.ALPN == sr.ALPN
-	res.DataOK = bytes.Equal(gotC, msgS) && bytes.Equal(gotS, msgC)
 	res.VirtualMs = dp.Net.Now().Milliseconds()
 	res.Expiries = dp.Net.Expiries
-	res.NDgram = [2]int{len(dp.Net.End(0).Sizes), len(dp.Net.End(1).Sizes)}
-	for _, l := range dp.Net.Log {
-		res.Trace = append(res.Trace, fmt.Sprintf("%d#%d:%s@%d", l.From, l.Idx, l.Act, l.At.Milliseconds()))
+	side := []string{"Cl", "Sv"}
+	for _, e := range dp.Net.Events {
+		t := e.At.Milliseconds()
+		switch e.Kind {
+		case "send":
+			res.Trace = append(res.Trace, fmt.Sprintf("%d send %d#%d %s", t, e.Side, e.Idx, c19Records(e.Data)))
+			coqTrace = append(coqTrace, fmt.Sprintf("(%d, ESend %s %d %s)", t, side[e.Side], e.Idx, c19Records(e.Data)))
+		case "deliver", "dup", "late", "drop", "hold":
+			res.Trace = append(res.Trace, fmt.Sprintf("%d %s %d#%d", t, e.Kind, e.Side, e.Idx))
+			coqTrace = append(coqTrace, fmt.Sprintf("(%d, ENet N%s %s %d)", t, e.Kind, side[e.Side], e.Idx))
+		case "expire":
+			res.Trace = append(res.Trace, fmt.Sprintf("%d expire %d", t, e.Side))
+			coqTrace = append(coqTrace, fmt.Sprintf("(%d, EExpire %s)", t, side[e.Side]))
+		case "done-ok", "done-err":
+			res.Trace = append(res.Trace, fmt.Sprintf("%d %s %d", t, e.Kind, e.Side))
+			coqTrace = append(coqTrace, fmt.Sprintf("(%d, EDone %s %s)", t, side[e.Side], emit.Bool(e.Kind == "done-ok")))
+		case "got":
+			res.Trace = append(res.Trace, fmt.Sprintf("%d got %d", t, e.Side))
+			coqTrace = append(coqTrace, fmt.Sprintf("(%d, EGot %s)", t, side[e.Side]))
+		default:
+			res.Trace = append(res.Trace, fmt.Sprintf("%d %s %d", t, e.Kind, e.Side))
+			coqTrace = append(coqTrace, fmt.Sprintf("(%d, EOther %s)", t, side[e.Side]))
+		}
 	}
-	return res
+	return res, coqTrace
 }
 
 func c19AddCase(out *emit.Out, scenario string, in c19Input) {
-	r := c19Run(in)
+	r, tr := c19Run(in)
 	direct := ""
 	if r.Panic != "" {
 		direct = "panic: " + r.Panic
@@ -147,12 +260,28 @@ func c19AddCase(out *emit.Out, scenario string, in c19Input) {
 	var fs []string
 	for _, f := range in.Faults {
 		k := map[string]string{"drop": "FDrop", "dup": "FDup", "delay": "FDelay"}[f.Kind]
-		fs = append(fs, fmt.Sprintf("mkFault %d %d %s %d", f.Dir, f.Idx, k, f.Ms))
+		fs = append(fs, fmt.Sprintf("mkFault %s %d %s %d", []string{"Cl", "Sv"}[f.Dir], f.Idx, k, f.Ms))
 	}
+	if os.Getenv("HX_DEBUG") != "" {
+		fmt.Fprintf(os.Stderr, "== %s %+v: cok=%v sok=%v cerr=%q serr=%q agree=%v pong=%v ping=%v vms=%d exp=%d\n  %s\n", scenario, in, r.COk, r.SOk, r.CErr, r.SErr, r.Agree, r.Pong, r.Ping, r.VirtualMs, r.Expiries, strings.Join(r.Trace, "\n  "))
+	}
+	ecdhe := in.Suite == 0xe011 || in.Suite == 0xe051
 	out.Add(emit.Case{Scenario: scenario, Trivial: len(in.Faults) == 0, Input: in, Direct: direct,
 		Observed: r,
-		Coq: fmt.Sprintf("FaultCase %s %s [%s] %s %s %s %s %d %d%%nat", emit.Bool(in.Resume), emit.Bool(in.Auth >= 1), strings.Join(fs, "; "),
-			emit.Bool(r.COk), emit.Bool(r.SOk), emit.Bool(r.Agree), emit.Bool(r.DataOK), r.VirtualMs, r.Expiries)})
+		Coq: fmt.Sprintf("FaultCase (mkCfg %s %s %s) [%s] %s %s %s %s %s [%s]", emit.Bool(in.Resume), emit.Bool(in.Auth >= 1 || ecdhe), emit.Bool(in.TieFlip),
+			strings.Join(fs, "; "), emit.Bool(r.COk), emit.Bool(r.SOk), emit.Bool(r.Agree), emit.Bool(r.Pong), emit.Bool(r.Ping), strings.Join(tr, "; "))})
+}
+
+func c19Singles(maxIdx int) []c19Fault {
+	var singles []c19Fault
+	for dir := 0; dir < 2; dir++ {
+		for idx := 0; idx < maxIdx; idx++ {
+			for _, k := range []string{"drop", "dup", "delay"} {
+				singles = append(singles, c19Fault{Dir: dir, Idx: idx, Kind: k, Ms: 150})
+			}
+		}
+	}
+	return singles
 }
 
 func runC19(p params) error {
@@ -181,15 +310,12 @@ func runC19(p params) error {
 	if p.tier == "thorough" {
 		cfgs = append(cfgs, c19Input{Suite: 0xe011, Auth: 4}, c19Input{Suite: 0xe013, Resume: true}, c19Input{Suite: 0xe013})
 	}
+	singles := c19Singles(6)
 	for _, cfg := range cfgs {
-		c19AddCase(out, "fault-free", cfg)
-		var singles []c19Fault
-		for dir := 0; dir < 2; dir++ {
-			for idx := 0; idx < 5; idx++ {
-				for _, k := range []string{"drop", "dup", "delay"} {
-					singles = append(singles, c19Fault{Dir: dir, Idx: idx, Kind: k, Ms: 150})
-				}
-			}
+		for _, tie := range []bool{false, true} {
+			in := cfg
+			in.TieFlip = tie
+			c19AddCase(out, "fault-free", in)
 		}
 		for _, f := range singles {
 			for _, tie := range []bool{false, true} {
@@ -197,18 +323,6 @@ func runC19(p params) error {
 				in.Faults = []c19Fault{f}
 				in.TieFlip = tie
 				c19AddCase(out, "k1-"+f.Kind, in)
-			}
-		}
-		if p.tier == "thorough" {
-			for i, f := range singles {
-				for j, g := range singles {
-					if j <= i || (f.Dir == g.Dir && f.Idx == g.Idx) {
-						continue
-					}
-					in := cfg
-					in.Faults = []c19Fault{f, g}
-					c19AddCase(out, "k2", in)
-				}
 			}
 		}
 	}
